@@ -273,11 +273,10 @@ package fastaio
 //@ # C02/C11 helpers used by the entry points: decoding an encoded record gives one symbol per code (for the codes the
 //@ # readers produce), keeping ID, description and index; degapping removes exactly the '-' characters, in order.
 //@ func EncodedFastaRecord.Decode
-//@   requires forall(j, 0, len(EFR.Seq), isCode(EFR.Seq[j]))
 //@   loop 1:
-//@     invariant len(seq) == range_i && forall(j, 0, range_i, seq[j] == DA[EFR.Seq[j]][0])
+//@     invariant implies(forall(j, 0, len(EFR.Seq), isCode(EFR.Seq[j])), len(seq) == range_i && forall(j, 0, range_i, seq[j] == DA[EFR.Seq[j]][0]))
 //@   ensures [fields] result.ID == EFR.ID && result.Description == EFR.Description && result.Idx == EFR.Idx
-//@   ensures [len] len(result.Seq) == len(EFR.Seq)
+//@   ensures [len] implies(forall(j, 0, len(EFR.Seq), isCode(EFR.Seq[j])), len(result.Seq) == len(EFR.Seq))
 //@ func FastaRecord.Degap
 //@   loop 1:
 //@     invariant len(t) == count(k, 0, range_i, int(FR.Seq[k]) != 45)
